@@ -1947,22 +1947,28 @@ func (g Gateway) Uint32SliceDelete(ctx context.Context, in *hydrapb.Uint32SliceD
 				errorsWhileDelete = append(errorsWhileDelete, err.Error())
 			}
 
-			treasureObj.Save(guardID)
-
-			// check the length of the slice in the treasure
+			// check the length of the slice in the treasure (before Save: in immediate-write
+			// mode Save releases the guard)
 			// if the length is 0, we can delete the treasure
 			size, err := treasureObj.Uint32SliceSize()
 			if err != nil || size == 0 {
 				sliceIsEmpty = true
 			}
 
+			treasureObj.Save(guardID)
+
 		}()
 
-		// The treasure is deleted only after the guard above was released: DeleteTreasure
-		// acquires the guard of the same treasure itself, and the guard is not re-entrant,
-		// so deleting while still holding it would wait for ourselves forever.
+		// The treasure is deleted only after the guard above was released: the delete acquires
+		// the guard of the same treasure itself, and the guard is not re-entrant, so deleting
+		// while still holding it would wait for ourselves forever. Another client may push a
+		// value in between, so the emptiness is tested again by the delete, under its guard.
 		if sliceIsEmpty {
-			if err := swampObj.DeleteTreasure(pair.GetKey(), false); err != nil {
+			_, err := swampObj.DeleteTreasureIf(pair.GetKey(), false, func(t treasure.Treasure) bool {
+				size, sizeErr := t.Uint32SliceSize()
+				return sizeErr != nil || size == 0
+			})
+			if err != nil {
 				errorsWhileDelete = append(errorsWhileDelete, err.Error())
 			}
 		}
